@@ -267,7 +267,10 @@ class RuleAnalysis:
                 ok_pattern = False
                 if "var" in pat:
                     self.an.add("pattern-variable", pl)
-                    self.occ(pat["var"], cscope, pl, introduce=True)
+                    # desugared to `if <matched term> = <pattern>` all the same
+                    pv = self.term(pat, cscope, cg, pl, in_then=False)
+                    if pv is not None and t is not None:
+                        cg.union(t, pv)
                 elif "wild" in pat:
                     self.an.add("pattern-wildcard", pl)
                 else:
@@ -282,12 +285,15 @@ class RuleAnalysis:
                         pattern_enums.add(enum)
                         covered.add(name)
                         ok_pattern = True
+                        seen_in_pattern = set()
                         for a in pat["args"]:
                             if "app" in a:
                                 self.an.add("pattern-nested", pl)
                                 ok_pattern = False
-                            elif "var" in a and a["var"] in scope:
-                                self.an.add("pattern-not-fresh", pl)
+                            elif "var" in a:
+                                if a["var"] in scope or a["var"] in seen_in_pattern:
+                                    self.an.add("pattern-not-fresh", pl)
+                                seen_in_pattern.add(a["var"])
                 if "app" in pat:
                     # the pattern is interpreted as a term in any case (typing, occurrences); it is
                     # equated with the matched term whenever it denotes a constructor application
